@@ -282,6 +282,69 @@ class SMG_relabel_1(LoopInv):
         ]
 
 
+class _SCRG_relabel_changes(LoopInv):
+    """for key, stereo_change_dict in self._atom_stereo_change.items():        (and the bond table)
+           for stereo_change, stereo in stereo_change_dict.items():
+               if stereo is None: continue
+               acc[renamed key][stereo_change] = stereo.__class__(tuple(mapping.get(a, a) for a in stereo.atoms), stereo.parity)
+    acc is a defaultdict(ChangeDict): lifted into the heap as a table whose missing keys are created on access"""
+    atomic = True
+    allocates = True
+
+    def setup(self, ctx, iterable):
+        t = "achg" if self.atomic else "bchg"
+        self.modifies_dict_dom = (t, "chg")
+        self.modifies_dict_val = (t, "chg")
+        self.accumulators = {"atom_stereo_change" if self.atomic else "bond_stereo_change": t}
+
+    def inv(self, ctx, done):
+        acc = ctx.fr.env["atom_stereo_change" if self.atomic else "bond_stereo_change"]
+        v0, E = ctx.v_entry, ctx.h_entry
+        N = H.heap_of(ctx.interp).snapshot()
+        rho, inv = _rho_inv(ctx)
+        at = self.atomic
+        T = H.D_ACHG if at else H.D_BCHG
+        y = z3.Int("ly") if at else z3.Const("lyb", BondS)
+        y2 = z3.Int("ly2") if at else z3.Const("lyb2", BondS)
+        k = z3.Int("lk") if at else z3.Const("lkb", BondS)
+        c = z3.Const("lc", H.ChgS)
+        r_ = z3.Int("lr")
+        has0, sh0, sl0 = (v0.ac_has, v0.ac_slot_has, v0.ac_slot) if at else (v0.bc_has, v0.bc_slot_has, v0.bc_slot)
+        hasN = lambda yy: N.d_has(T, acc.ref, yy)  # noqa
+        refN = lambda yy: N.d_get(T, acc.ref, yy)  # noqa
+        shN = lambda yy, cc: N.d_has(H.D_CHG, refN(yy), cc)  # noqa
+        slN = lambda yy, cc: N.d_get(H.D_CHG, refN(yy), cc)  # noqa
+        src = inv(y) if at else mkbond(inv(BondS.lo(y)), inv(BondS.hi(y)))
+        img = rho(src) if at else mkbond(rho(BondS.lo(src)), rho(BondS.hi(src)))
+        norm = z3.BoolVal(True) if at else BondS.lo(y) < BondS.hi(y)
+        collected = z3.And(z3.Select(done, src), has0(src), img == y)
+        topE, topN = E.top(), N.top()
+        return [
+            ("visited-are-keys", FA([k], z3.Implies(z3.Select(done, k), z3.Select(ctx.C, k)), patterns=[z3.Select(done, k)])),
+            ("keys-collected-are-the-renamed-visited-keys", FA([y], z3.Implies(norm, hasN(y) == collected), patterns=[hasN(y)])),
+            ("keys-are-normalised", FA([y], z3.Implies(hasN(y), norm), patterns=[hasN(y)])),
+            ("their-change-dicts-are-new", FA([y], z3.Implies(hasN(y), z3.And(refN(y) >= topE, refN(y) < topN)), patterns=[refN(y)])),
+            ("change-dicts-unshared", FA([y, y2], z3.Implies(z3.And(hasN(y), hasN(y2), y != y2), refN(y) != refN(y2)), patterns=[z3.MultiPattern(refN(y), refN(y2))])),
+            ("slots-are-the-source's", FA([y, c], z3.Implies(hasN(y), shN(y, c) == sh0(src, c)), patterns=[shN(y, c)])),
+            ("descriptors-are-the-renamed-ones",
+             FA([y, c], z3.Implies(z3.And(hasN(y), sh0(src, c)), slN(y, c) == H.ODescrS.DSome(GM.d_relabel(H.ODescrS.dd(sl0(src, c)), rho))), patterns=[slN(y, c)])),
+            ("only-the-new-table-is-written", _frame_other_refs(ctx, T.name, acc.ref)),
+            ("change-dicts-that-existed-at-loop-entry-untouched",
+             FA([r_], z3.Implies(r_ < topE, z3.And(z3.Select(N.dom["chg"], r_) == z3.Select(E.dom["chg"], r_), z3.Select(N.val["chg"], r_) == z3.Select(E.val["chg"], r_))))),
+        ]
+
+    def hints(self, ctx, x):
+        return [ctx.v_entry.ac_ref(x) if self.atomic else ctx.v_entry.bc_ref(x)]
+
+
+class SCRG_relabel_0(_SCRG_relabel_changes):
+    atomic = True
+
+
+class SCRG_relabel_2(_SCRG_relabel_changes):
+    atomic = False
+
+
 def _chg_view(vv, atomic, k, c):
     if atomic:
         return z3.If(z3.And(vv.ac_has(k), vv.ac_slot_has(k, c)), vv.ac_slot(k, c), H.ODescrS.DNone)
@@ -599,6 +662,8 @@ def _role_loop(label):
 
 
 LOOPS = {
+    ("graphs/scrg.py", "StereoCondensedReactionGraph.relabel_atoms", 0): SCRG_relabel_0,
+    ("graphs/scrg.py", "StereoCondensedReactionGraph.relabel_atoms", 2): SCRG_relabel_2,
     ("graphs/crg.py", "CondensedReactionGraph.reactant", 0): CRG_reactant_0,
     ("graphs/crg.py", "CondensedReactionGraph.reactant", 1): CRG_reactant_1,
     ("graphs/crg.py", "CondensedReactionGraph.product", 0): CRG_product_0,
